@@ -10,27 +10,27 @@ if not qtomography.is_fullrank_matA(): raise Exception      -- size == rank, siz
 A = calc_matA(); b = calc_vecB()
 A_ddag = np.linalg.inv(A.T @ A) @ A.T
 for empi_dists in empi_dists_sequence:
-    f = np.vstack([e[1] for e in empi_dists]).flatten()      -- counts e[0] are not read
+    f = np.concatenate([e[1] for e in empi_dists])           -- counts e[0] are not read
     v = A_ddag @ (f - b)
 ```
 
 The two numpy kernels are parameters of the model: `rank` is the value of `np.linalg.matrix_rank(A)`,
 `G` is the value of `np.linalg.inv(A.T @ A)`; their contracts are hypotheses of the theorems
-(`G · (AᵀA) = 1`).  Everything else is executed exactly.  `np.vstack` of arrays of different lengths
-raises (`Err.ragged`) — this is how the code behaves when schedules have different outcome counts.
+(`G · (AᵀA) = 1`).  Everything else is executed exactly.  `np.concatenate` joins the distributions whatever
+their lengths, so schedules with different outcome counts are fine (before /repo commit 3acec41 the code used
+`np.vstack(...).flatten()`, which raised for them — finding D8b, fixed).
 -/
 namespace QM.C09
 
 inductive Err
   | notFullRank   -- `raise Exception` at the guard
-  | emptyData     -- np.vstack([]) : ValueError (need at least one array)
-  | ragged        -- np.vstack of arrays with different lengths : ValueError
+  | emptyData     -- np.concatenate([]) : ValueError (need at least one array)
   | shape         -- `f - b` : operands could not be broadcast together
   | index         -- `_estimated_var_sequence[0]` on an empty sequence : IndexError
 deriving Repr, DecidableEq
 
 def Err.toString : Err → String
-  | .notFullRank => "notFullRank" | .emptyData => "emptyData" | .ragged => "ragged"
+  | .notFullRank => "notFullRank" | .emptyData => "emptyData"
   | .shape => "shape" | .index => "index"
 
 variable {K : Type} {m n : Nat}
@@ -42,12 +42,11 @@ def isFullRank (m n rank : Nat) : Bool := min m n == rank
 def aDdag [Add K] [Mul K] [Zero K] (G : Mat K n n) (A : Mat K m n) : Mat K n m :=
   G.mul A.transpose
 
-/-- `np.vstack(arrays).flatten()` for 1-D arrays. -/
-def vstackFlatten (arrs : List (List K)) : Except Err (List K) :=
+/-- `np.concatenate(arrays)` for 1-D arrays. -/
+def concatArrays (arrs : List (List K)) : Except Err (List K) :=
   match arrs with
   | [] => .error .emptyData
-  | p :: rest =>
-    if rest.all (fun a => a.length == p.length) then .ok (p :: rest).flatten else .error .ragged
+  | p :: rest => .ok (p :: rest).flatten
 
 /-- the operand `f` of `f - b` (`b` has length `m`): same length, or a length-1 array (numpy broadcasts it). -/
 def toDataVec (m : Nat) (f : List K) : Except Err (Vec K m) :=
@@ -63,7 +62,7 @@ def estOne [Add K] [Mul K] [Sub K] [Zero K] (Ad : Mat K n m) (b f : Vec K m) : V
 /-- loop body: one dataset `[(count, dist), …]` -/
 def estData [Add K] [Mul K] [Sub K] [Zero K] (Ad : Mat K n m) (b : Vec K m)
     (ds : List (Nat × List K)) : Except Err (Vec K n) := do
-  let flat ← vstackFlatten (ds.map (·.2))
+  let flat ← concatArrays (ds.map (·.2))
   let f ← toDataVec m flat
   pure (estOne Ad b f)
 
